@@ -229,6 +229,7 @@ def check_c04(repo, tier):
                 return sc.method(a, 'ortho_left', threshold=thr, max_rank=cap)
             for ch, sc, res, exc in l2.explore(repo, body, typed=True):
                 l2rules.typing_obligations(run, 'C04', 'D3', repo, sc, scen, {TTM})
+                l2rules.relative_cut_obligations(run, 'C04', 'D3', repo, sc, scen, {TTM})
                 if exc is not None:
                     run.oblige('D3', (entry, scen), False)
                     l2rules.raised_finding(run, 'C04', 'D3', repo, entry, scen, exc)
@@ -360,6 +361,7 @@ def check_c05(repo, tier):
                     return sc.method(a, 'svd', index, ortho_l=ol, ortho_r=orr, **kw)
                 for ch, sc, res, exc in l2.explore(repo, body, typed=True):
                     l2rules.typing_obligations(run, 'C05', 'D1', repo, sc, scen, {TTM})
+                    l2rules.relative_cut_obligations(run, 'C05', 'D1', repo, sc, scen, {TTM})
                     if exc is not None:
                         run.oblige('D1', (entry, scen), False)
                         l2rules.raised_finding(run, 'C05', 'D1', repo, entry, scen, exc)
